@@ -431,3 +431,26 @@ CHECKS["C19"] = {
                   "statements both provers emit byte-identical A / L_j / R_j (same nonce derivation, generators, transcript layout, folding).",
     "level_note": "Held on the recorded vectors and the executed cross runs. Trusted: refbp, the recorded vectors.",
 }
+
+CHECKS["C20"] = {
+    "title": "Secrets are wiped from heap memory before it is released",
+    "level": "exploration",
+    "technique": "runtime monitoring with a scanning global allocator: every block released (dealloc, and the moved-from block of every realloc) during library calls and drops of owning objects is searched for the literal bytes of registered secrets, then wiped; run on an unoptimised library build, the checked build and the plain release build; raw scan of a statement's bytes after drop_in_place",
+    "design_ref": "DESIGN.md section 4 C20",
+    "legs": [
+        {"name": "lib0", "build": "lib0", "shards": 16, "leg": "all", "args": ["profile=lib0"]},
+        {"name": "release", "build": "release", "shards": 16, "leg": "all", "args": ["profile=release"]},
+        {"name": "plain", "build": "plain", "shards": 16, "leg": "all", "args": ["profile=plain"]},
+    ],
+    "rule": "one case = one armed window around a library call or a drop: prove (seeded / unseeded, degree 1..6, aggregation 1..4, 64-bit high-entropy values), a prove call refused half-way, verify in both recovering modes on success and "
+            "on two failure paths (final check fails after recovery; a later batch member is refused), drop of returned masks, drop and clone+drop of CommitmentOpening, RangeWitness, ExtendedMask, Vec / Box / clone of a seeded RangeStatement; plus "
+            "the in-place statement scan; non-trivial = at least one block was released and scanned in the window; distinct = distinct (instance, window, build)",
+    "require": {"quick": {"windows": 2500, "blocks_scanned": 150000, "window_prove": 300, "window_verify": 500, "window_drop": 1500, "inline_seed_scans": 80, "scanner_selftests": 48},
+                "thorough": {"windows": 25000, "blocks_scanned": 1500000, "window_prove": 3000, "window_verify": 5000, "window_drop": 15000, "inline_seed_scans": 800, "scanner_selftests": 48}},
+    "assumptions": COMMON_ASSUMPTIONS + ["decides on literal encodings of the four secret kinds the property names (LE64 value - only 64-bit high-entropy values are registered -, 32-byte blinding factor, seed, mask component); buffers merely derived from secrets (NAF / radix-16 digits, offset bit vectors, seed-derived nonces) are diagnostics, not verdicts",
+                                         "realloc is made to move always (a conforming allocator may), so a grown buffer's old block is always inspected; blocks are wiped after scanning and the harness wipes every block it releases itself, so stale bytes cannot resurface in uninitialised slack",
+                                         "Ristretto only: over the free-module group a commitment literally stores blinding factors as coordinates"],
+    "level_text": "Interposes on the global allocator of the real prover and verifier and inspects every heap block they release while secrets are live: values, blinding factors, the recovery seed and recovered masks must never be found, "
+                  "in an unoptimised build of the library (where temporaries are not elided), in the checked build and in the plain release build; owning types are dropped (also as clones, in Vec and Box) inside armed windows; a statement dropped in place must no longer contain its seed.",
+    "level_note": "Held on the executed windows; scanning cannot see secrets in a transformed representation. The scanner is self-tested in every process with a planted canary.",
+}
